@@ -289,6 +289,48 @@ func genC13(c *Ctx) {
 			c.Em.Emit(Rec{Case: fmt.Sprintf("C13 %d %s A", start, enc(steps)), Impl: parts[k], Src: src + fmt.Sprintf("# element %d", k), NT: true, Tags: []string{"shared-prefix"}})
 		}
 	}
+	// ---- receivers other than ints (strs whose text contains the name of the step, arrays, objects with callable
+	// props): the wrapped chain holds exactly what the plain chain yields or raises
+	otherRecvs := []string{"\"a+b\"", "\"subway\"", "\"len\"", "\"uc\"", "\"x<y\"", "\"S\"", "\"rev\"", "\"a*b\"", "\"\"", "\"==\"", "\"at\"",
+		"[3, 1, 2]", "[\"len\", \"rev\"]", "[]", "{f: {|x, y| [y]}, len: {|x| 9}}", "(1:4)", "%{'len: 1}"}
+	otherSteps := []string{".+(\"c\")", ".sub(\"s\", \"t\")", ".len", ".uc", ".<(\"b\")", ".S", ".rev", ".*(2)", ".==(\"x\")", ".at(0)", ".+([4])", ".f(5)", ".A", ".repr",
+		".has?(1)", ".sort", ".sum", ".keys", ".split(sep: \"+\")", ".+(\"c\").len", ".rev.len", ".uc.rev"}
+	for _, rv := range otherRecvs {
+		for _, st := range otherSteps {
+			// names that the Either itself answers (everything Obj / Iterable / Wrappable define: A, S, repr, keys, ...)
+			// are not steps of the chain
+			first := strings.TrimPrefix(st, ".")
+			if i := strings.IndexAny(first, "(."); i >= 0 {
+				first = first[:i]
+			}
+			if _, own := object.FindPropAlongProtos(object.BuiltInEitherValObj, object.GetSymHash(first)); own {
+				continue
+			}
+			if !c.Mine() {
+				continue
+			}
+			op := c.It.Run("("+rv+")"+st, "")
+			ow := c.It.Run("("+rv+").try"+st+".A", "")
+			if op.Kind == "err" && op.ErrKind == "NoPropErr" {
+				continue // an absent property: the known finding about the proxy's message (covered by the shapes below)
+			}
+			rec := Rec{Impl: ow.Canon(), Src: "(" + rv + ").try" + st, NT: true, Tags: []string{"other-receiver"}}
+			good := false
+			if arr, ok := ow.Obj.(*object.PanArr); ok && ow.Kind == "val" && len(arr.Elems) == 2 {
+				switch op.Kind {
+				case "val":
+					good = arr.Elems[1] == object.BuiltInNil && safeInspect(arr.Elems[0]) == op.Inspect
+				case "err":
+					w, ok := arr.Elems[1].(*object.PanErrWrapper)
+					good = ok && string(w.ErrKind) == op.ErrKind && w.Msg == op.ErrMsg
+				}
+			}
+			if !good {
+				rec.Oracle = fmt.Sprintf("plain call (%s)%s gives %s %s, the wrapped chain holds %s", rv, st, op.Canon(), op.ErrMsg, ow.Canon())
+			}
+			c.Em.Emit(rec)
+		}
+	}
 	// ---- property-call shapes through the proxy (the known findings live here)
 	shapes := []struct{ name, recv, call string }{
 		{"callable property", "{f: {|x, y| [x.a, y]}, a: 1}", ".f(2)"},
